@@ -32,10 +32,10 @@ REAL = ["BPTK_Py.modeling.simultaneousScheduler.SimultaneousScheduler (run, run_
         "BPTK_Py.scenariomanager.scenario_manager_hybrid (deep copy per scenario)", "BPTK_Py.bptk.run_scenarios"]
 STUB = ["choice of the running scenario thread (baton scheduler, line events in simultaneousScheduler.py/model.py/dataCollector.py/scheduler.py)",
         "agents/model/collector are logging harness subclasses"]
-ASSUMPTIONS = ["population changes only in the two round hooks (the property does not say whether an agent created inside act acts in that step)",
+ASSUMPTIONS = ["population changes in the two round hooks, plus deletions from inside act of the acting agent itself or of an agent created before it (both have already acted; creations inside act are not generated: the property does not say whether such an agent acts in that step)",
                "harness subclasses (models/abm_agents.py) run atomically between pre-emption points"]
-FAULT_KINDS = ["preemption", "population_change_in_hook"]
-PROBES = ["zero_stop_time", "negative_start", "decimal_dt", "empty_population", "collect_off", "threads_interleaved", "driven_steps"]
+FAULT_KINDS = ["preemption", "population_change_in_hook", "agent_deleted_inside_act"]
+PROBES = ["model_run_again_with_other_run_spec", "deletion_inside_act", "zero_stop_time", "negative_start", "decimal_dt", "empty_population", "collect_off", "threads_interleaved", "driven_steps"]
 EXHAUSTIVE = {"quick": False, "thorough": False}
 
 
@@ -47,7 +47,7 @@ def plan(tier, verif_seed):
 
 def generate(spec):
     rng = random.Random(spec["seed"])
-    mode = rng.choice(["run", "run", "scheduler_steps", "model_run_step", "bptk_threads", "bptk_threads"])
+    mode = rng.choice(["run", "run", "run_twice", "scheduler_steps", "model_run_step", "bptk_threads", "bptk_threads"])
     collect = rng.random() < 0.7
     if mode == "bptk_threads":
         scs = [W.gen_scenario(rng, small=True, delayed=rng.random() < 0.6) for _ in range(rng.choice([2, 2, 3]))]
@@ -63,6 +63,11 @@ def generate(spec):
         if mode == "model_run_step":
             scs[0]["start"] = 0     # Model.run_step(step) drives round 0 only: time = step*dt
             scs[0]["stop"] = 0
+        if mode == "run_twice":
+            # the same model and scheduler are run again after run_specs() gave them another run spec
+            d2 = rng.choice([d for d in W.DTS if d != scs[0]["dt"]])
+            s2 = rng.choice([0, 1, 2])
+            scs[0]["second"] = {"start": s2, "stop": s2 + rng.choice([0, 1, 2]), "dt": d2}
     return {"property": PROPERTY, "mode": mode, "collect": collect, "scenarios": scs, "sched": sched}
 
 
@@ -96,6 +101,9 @@ def execute(case):
             res.probe("empty_population")
         if sc["pop"]:
             res.fault("population_change_in_hook", len(sc["pop"]))
+        if sc.get("acts"):
+            res.fault("agent_deleted_inside_act", len(sc["acts"]))
+            res.probe("deletion_inside_act")
     if not collect:
         res.probe("collect_off")
     if mode != "bptk_threads":
@@ -107,6 +115,21 @@ def execute(case):
             if mode == "run":
                 m.run(collect_data=collect)
                 exp = W.expected_calls(sc, collect)
+            elif mode == "run_twice":
+                res.probe("model_run_again_with_other_run_spec")
+                m.run(collect_data=collect)
+                exp1 = W.expected_calls(sc, collect)
+                if m.world.calls != exp1:
+                    exp = exp1
+                else:
+                    sh1, k1 = W.expected_calls.last_shadow, W.expected_calls.last_k
+                    s2 = sc["second"]
+                    m.world.calls = []
+                    m.run_specs(s2["start"], s2["stop"], s2["dt"])
+                    m.run(collect_data=collect)
+                    sc = {**sc, "start": s2["start"], "stop": s2["stop"], "dt": s2["dt"]}
+                    exp = W.expected_calls(sc, collect, sh=sh1, k0=k1, with_hooks=False)
+                    spr = round(1 / sc["dt"])
             elif mode == "scheduler_steps":
                 res.probe("driven_steps")
                 for r in range(sc["start"], sc["stop"] + 1):
@@ -198,8 +221,8 @@ def shrink(case):
             c["scenarios"].pop(j)
             yield c
     for j, sc in enumerate(case["scenarios"]):
-        for key in ("pop", "states", "props", "sends"):
-            if sc[key]:
+        for key in ("pop", "states", "props", "sends", "acts"):
+            if sc.get(key):
                 for cand in shrink_list(sc[key]):
                     c = copy.deepcopy(case)
                     c["scenarios"][j][key] = copy.deepcopy(cand)
@@ -209,15 +232,15 @@ def shrink(case):
             c["scenarios"][j]["stop"] = sc["stop"] - 1
             spr = round(1 / sc["dt"])
             kmax = (c["scenarios"][j]["stop"] - sc["start"] + 1) * spr
-            for key in ("pop", "states", "props", "sends"):
-                c["scenarios"][j][key] = [x for x in c["scenarios"][j][key] if x["k"] <= kmax]
+            for key in ("pop", "states", "props", "sends", "acts"):
+                c["scenarios"][j][key] = [x for x in c["scenarios"][j].get(key, []) if x["k"] <= kmax]
             yield c
         if sc["dt"] != 1.0:
             c = copy.deepcopy(case)
             c["scenarios"][j]["dt"] = 1.0
             kmax = (sc["stop"] - sc["start"] + 1)
-            for key in ("pop", "states", "props", "sends"):
-                c["scenarios"][j][key] = [x for x in c["scenarios"][j][key] if x["k"] <= kmax]
+            for key in ("pop", "states", "props", "sends", "acts"):
+                c["scenarios"][j][key] = [x for x in c["scenarios"][j].get(key, []) if x["k"] <= kmax]
             yield c
 
 
